@@ -79,6 +79,12 @@ def law_unary(ch):
     sig = op
     exact = True
 
+    # inexact operations are as precise as the least precise stored block
+    # (mixed-dtype arrays may hold single-precision blocks)
+    eps_x = max([float(np.finfo(np.asarray(b).dtype).eps)
+                 for b in x.blocks.values()
+                 if np.asarray(b).dtype.kind in "fc"] or [0.0])
+
     def judge(res, want, want_charge=None, want_duals=None, ref=None):
         require(isinstance(res, sr.AbelianArray), sig + ":type", f"{type(res)}")
         require(type(res) is type(x), sig + ":class", f"{type(res)}")
@@ -90,7 +96,7 @@ def law_unary(ch):
             require(list(res.duals) == list(want_duals), sig + ":duals",
                     lambda: f"{res.duals} != {want_duals}")
         dense_equal(D.dense_of(res, ref=ref), want, sig + ":value",
-                    exact=exact, what=op)
+                    exact=exact, what=op, eps=eps_x)
 
     if op in ("transpose", "T"):
         if op == "T":
@@ -210,7 +216,7 @@ def law_unary(ch):
         for r in outs:
             scalar_equal(r, np.linalg.norm(dx.ravel()), sig + ":value",
                          exact=False, scale=float(np.abs(dx).max() or 1),
-                         K=dx.size, what="norm")
+                         K=dx.size, what="norm", eps=eps_x)
     elif op in ("abs", "sqrt", "isfinite"):
         if not x.blocks:
             return
@@ -219,7 +225,9 @@ def law_unary(ch):
                            lambda: getattr(sr, op)(x),
                            lambda: ar.do(op, x), sig)
         require(outs, sig + ":raised", f"{op} raised")
-        exact = op != "sqrt"
+        exact = op != "sqrt" and not (
+            op == "abs" and any(np.asarray(b).dtype.kind == "c"
+                                for b in x.blocks.values()))
         for r in outs:
             want = npf(dx)
             if op == "isfinite":
